@@ -224,6 +224,10 @@ def small_scope_search(pid, cfg, seed, deadline):
 
 def run_property(pid, tier, seed):
     t0 = time.time()
+    # time limits of the harness watchdog (per case) and of the driver (per line): time is not
+    # part of any property; a case over the limit is reported as `ok timeout` / `ok driver-timeout`
+    os.environ.setdefault("HARNESS_CASE_TIMEOUT_MS", "5000" if tier == "quick" else "20000")
+    os.environ.setdefault("DRIVER_LINE_TIMEOUT_MS", "10000" if tier == "quick" else "30000")
     cfg = PROPS[pid]
     os.makedirs(REPLAY, exist_ok=True)
     stale = os.path.join(REPLAY, "%s-%d.json" % (pid, seed))
